@@ -170,10 +170,18 @@ pub(super) fn generate_parser_actions(generator: &ParserGenerator) -> Result<()>
         .iter()
         .filter(|nt| nt.reachable.get())
         .for_each(|nonterminal| {
-            // Add non-terminal type
-            if !type_names.contains(&nonterminal.name) {
-                log!("Creating types for non-terminal '{}'.", nonterminal.name);
-                for ty in actions_generator.nonterminal_types(nonterminal, generator.settings) {
+            // Add non-terminal types. Each generated type is added iff a
+            // type of that name is not already in the file (a rule may need
+            // several types, e.g. an enum and its variant structs).
+            for ty in actions_generator.nonterminal_types(nonterminal, generator.settings) {
+                let type_name = match &ty {
+                    syn::Item::Enum(e) => Some(e.ident.to_string()),
+                    syn::Item::Struct(e) => Some(e.ident.to_string()),
+                    syn::Item::Type(t) => Some(t.ident.to_string()),
+                    _ => None,
+                };
+                if type_name.is_none_or(|name| !type_names.contains(&name)) {
+                    log!("Creating type for non-terminal '{}'.", nonterminal.name);
                     ast.items.push(ty);
                 }
             }
